@@ -153,7 +153,7 @@ def derived_eq_ok(lib):
     return ok
 
 
-def share(module, ctx, rep, rule_ids, key_prefixes=None, floors=None):
+def share(module, ctx, rep, rule_ids, key_prefixes=None, floors=None, key_suffixes=None):
     """Evaluate another property's module and adopt only the named rules (optionally only the instances whose key
     starts with one of `key_prefixes`) into `rep`. Used where one structural rule is a necessary condition of several
     properties; the rule keeps its home id."""
@@ -167,4 +167,31 @@ def share(module, ctx, rep, rule_ids, key_prefixes=None, floors=None):
             r.instances = [i for i in r.instances if i["key"].startswith(tuple(key_prefixes))
                            or i["key"].startswith("anchor-missing")]
             r.floor = (floors or {}).get(r.id, 1)
+        if key_suffixes is not None:
+            r.instances = [i for i in r.instances if i["key"].endswith(tuple(key_suffixes))
+                           or i["key"].startswith("anchor-missing")]
+            r.floor = (floors or {}).get(r.id, 1)
         rep.rules.append(r)
+
+
+def get_impls_in(lib, module):
+    """Bodies of `<... as selection::Get>::get` for the implementing types defined in `module` (e.g.
+    "functions::boolean::compare::eq"), whatever the type is called and wherever in the module it is declared
+    (inside the factory closure or at module level)."""
+    pre = "<" + module + "::"
+    return [b for n, b in lib.bodies.items() if n.startswith(pre) and n.endswith(" as selection::Get>::get")]
+
+
+def ret_locals(body):
+    """The return place and the locals whose whole value is moved into it (the result of an inlined local function)."""
+    ret = {0}
+    grew = True
+    while grew:
+        grew = False
+        for bb, idx, place, rv, _ in body.assignments():
+            if place["l"] in ret and not place["p"] and rv["k"] == "use" and rv["op"].get("k") == "move" \
+                    and not rv["op"]["place"]["p"] and rv["op"]["place"]["l"] not in ret \
+                    and not (1 <= rv["op"]["place"]["l"] <= body.arg_count):
+                ret.add(rv["op"]["place"]["l"])
+                grew = True
+    return ret
